@@ -183,15 +183,25 @@ def private_helper(ctx, f, call: ast.Call):
         targets, how = ctx.cg.resolve_call(f, call)
     except Exception:
         return None
-    if len(targets) != 1 or how not in ("local-def", "module", "qualified", "dispatch"):
+    if len(targets) != 1 or how not in ("local-def", "module", "qualified", "dispatch", "by-name"):
         return None
     g = targets[0]
     if g is f or g.module is not f.module:
         return None
-    if how == "dispatch":
+    if how in ("dispatch", "by-name"):
         recv = call.func.value if isinstance(call.func, ast.Attribute) else None
-        if not (isinstance(recv, ast.Name) and recv.id == (f.self_name or "")):
+        if not isinstance(recv, ast.Name):
             return None
+        if how == "dispatch":
+            if recv.id != (f.self_name or ""):
+                return None
+        else:
+            # a closure inside a method calling `self.helper(...)`: `self` is the enclosing method's receiver
+            p = getattr(f, "parent", None)
+            while p is not None and p.cls is None:
+                p = getattr(p, "parent", None)
+            if p is None or recv.id != (p.self_name or "") or g.cls is None or g.cls not in getattr(p.cls, "mro", [p.cls]):
+                return None
     return g
 
 
